@@ -85,6 +85,9 @@ PreserveClauses(p, fmt, a, b) ==
      <<p \o ".preserve.ctcshape", \A i \in DOMAIN b.ctcs : WellShaped(b.ctcs[i].ast)>>,
      <<p \o ".preserve.ctcs",   Len(a.ctcs) = Len(b.ctcs) /\ (\A i \in DOMAIN b.ctcs : WellShaped(b.ctcs[i].ast)) =>
                                    \A i \in DOMAIN a.ctcs : Equiv(a.ctcs[i].ast, b.ctcs[i].ast)>>,
+     \* C05 says "the same named constraints" where the other formats say "logically equivalent": JSON stores the tree itself
+     <<p \o ".preserve.ctcs.same", fmt = "json" /\ Len(a.ctcs) = Len(b.ctcs) =>
+                                   \A i \in DOMAIN a.ctcs : a.ctcs[i].ast = b.ctcs[i].ast>>,
      <<p \o ".preserve.ctcnames", fmt \in {"json", "glencoe", "xml"} /\ Len(a.ctcs) = Len(b.ctcs) =>
                                    \A i \in DOMAIN a.ctcs : a.ctcs[i].name = b.ctcs[i].name>> >>
 
